@@ -769,6 +769,7 @@ struct BurstGen
 {
   int who; // 0 main, 1..L live, -1 ephemeral
   bool big{false};
+  bool flush{false}; // flush_log() right after the burst, while other threads of the cycle may still log and exit
   std::vector<unsigned> sizes;
 };
 
@@ -787,7 +788,7 @@ void run_cycles_case(Choices& c, Report& r)
   unsigned const L = c.pick(3);
   unsigned const ncycles = 1 + c.pick(5);
   std::vector<CycleGen> cy(ncycles);
-  bool any_eph = false, any_big = false;
+  bool any_eph = false, any_big = false, any_flush = false;
   for (auto& k : cy)
   {
     k.be = gen_backend(c);
@@ -816,6 +817,8 @@ void run_cycles_case(Choices& c, Report& r)
         unsigned const n = 1 + c.pick(12);
         for (unsigned i = 0; i < n; ++i) g.sizes.push_back(gen_size(c));
       }
+      g.flush = c.pick(4) == 3;
+      if (g.flush) any_flush = true;
       total += static_cast<long>(g.sizes.size());
       k.bursts.push_back(g);
     }
@@ -846,9 +849,10 @@ void run_cycles_case(Choices& c, Report& r)
       if (g.who < 0) tid = 100u * (ci + 1u) + e_idx++;
       else tid = static_cast<unsigned>(g.who);
       body += std::string{"burst tid="} + (g.who < 0 ? "e" : std::to_string(g.who)) + " sizes=" +
-        (g.big ? "mod23x" + std::to_string(g.sizes.size()) : sizes_csv(g.sizes)) + "\n";
+        (g.big ? "mod23x" + std::to_string(g.sizes.size()) : sizes_csv(g.sizes)) + (g.flush ? " flush=1" : "") + "\n";
       rl += " " + (g.who < 0 ? "e" + std::to_string(tid) : "t" + std::to_string(tid)) + "x" + std::to_string(g.sizes.size());
       if (g.sizes.size() <= 12) rl += "[" + sizes_csv(g.sizes) + "]";
+      if (g.flush) rl += "+flush";
       auto& dst = k.fresh ? cyc_lines[tid] : app_lines[tid];
       for (unsigned sz : g.sizes)
       {
@@ -954,6 +958,7 @@ void run_cycles_case(Choices& c, Report& r)
   if (any_eph) r.label("threads_already_exited");
   if (L > 0) r.label("multi_thread");
   if (any_big) r.label("cycles_big_burst");
+  if (any_flush) r.label("cycles_flush_log_while_others_log_and_exit");
   for (auto const& k : cy)
   {
     if (k.be.mode == 1) r.label("busy_backend");
